@@ -1132,7 +1132,8 @@ def bswap(info, a):
 
 def cmps(info, a, b):
     e= []
-    e+=l_cmp(info, a, b)
+    # a is [edi], b is [esi]: the processor computes [esi] - [edi]
+    e+=l_cmp(info, b, a)
     off = a.get_size()/8
     e.append(ExprAff(a.arg, ExprCond(df,
                                      ExprOp('-', a.arg, ExprInt_from(a.arg, off)),
